@@ -6,6 +6,8 @@ import Req.Driver.WireUtil
 import Req.H2.HeaderBlock
 import Req.Client.Resend
 import Req.Client.Rewrite
+import Req.Client.SharedScratch
+import Req.Client.OrderScope
 /-! Driver lanes of C16. -/
 namespace Req.Driver.L.C16
 open Req.Proto
@@ -269,7 +271,81 @@ def laneXBag : List String → String
     | _, _, _, _, _, _, _, _, _, _ => "bad-op"
   | _ => "bad-op"
 
+/-- `c16scratch <hold 0|1> <cap|-> <lens> <sched>` → the model of writers borrowing a shared scratch
+object (`Req.SharedScratch`): writer `i` has the items `1000·i + k` (k < lens[i]); after the schedule,
+for every writer its phase and what it has put on its own connection. -/
+def laneScratch : List String → String
+  | [hold, cap, lens, sched] =>
+    let cap? : Option (Option Nat) := if cap == "-" then some none else cap.toNat?.map some
+    match Wire.decodeBool hold, cap?, decodeNatList lens, decodeNatList sched with
+    | some hold, some cap, some lens, some sched =>
+      let reqs : Nat → List Nat := fun i => (List.range (lens.getD i 0)).map fun k => 1000 * i + k
+      let s := Req.SharedScratch.run hold cap reqs Req.SharedScratch.init sched
+      " ".intercalate ((List.range lens.length).map fun i =>
+        let ph := match s.phase i with
+          | .idle => "idle"
+          | .holding _ _ => "writing"
+          | .done => "done"
+        "w" ++ toString i ++ "=" ++ ph ++ ":" ++ encodeNatList (s.out i))
+    | _, _, _, _ => "bad-op"
+  | _ => "bad-op"
+
+def decodeDotList (s : String) : Option (List Bytes) :=
+  if s == "-" then some [] else (s.splitOn ".").mapM decodeHex
+
+def encodeDotList (l : List Bytes) : String :=
+  if l.isEmpty then "-" else ".".intercalate (l.map encodeHex)
+
+/-- `c16cloneorder <op> <op> …` with ops `h:<client>:<list>` (SetCommonHeaderOrder), `p:<client>:<list>`
+(SetCommonPseudoHeaderOder), `k:<src>:<dst>` (Clone), `s:<client>:<request-level list|~>:<names on the wire>`
+(a request sent by that client; lists are `.`-joined hex) → for every send: the names on the wire that the
+effective header-order list names, in the order the specification of the sort puts them
+(`HeaderSortSpec.listedSorted`), the effective header-order list and the effective
+pseudo-header-order list (`~` none). Model:
+`Req.OrderScope` (wrapper lists per client, copied by Clone; the oldest wrapper assigns last). -/
+def laneCloneOrder (args : List String) : String :=
+  let rec go (st : Req.OrderScope.Store) (acc : List String) : List String → Option (List String)
+    | [] => some acc.reverse
+    | a :: rest =>
+      match a.splitOn ":" with
+      | ["h", c, l] =>
+        match c.toNat?, decodeDotList l with
+        | some c, some l => go (Req.OrderScope.apply st (.setOrder c l)) acc rest
+        | _, _ => none
+      | ["p", c, l] =>
+        match c.toNat?, decodeDotList l with
+        | some c, some l => go (Req.OrderScope.apply st (.setPseudo c l)) acc rest
+        | _, _ => none
+      | ["k", s, d] =>
+        match s.toNat?, d.toNat? with
+        | some s, some d => go (Req.OrderScope.apply st (.clone s d)) acc rest
+        | _, _ => none
+      | ["s", c, rl, names] =>
+        let rl? : Option (Option (List Bytes)) := if rl == "~" then some none else (decodeDotList rl).map some
+        match c.toNat?, rl?, decodeDotList names with
+        | some c, some rl, some names =>
+          let eh := Req.OrderScope.effective (st c).hdr rl
+          let ep := Req.OrderScope.effective (st c).pse none
+          let kvs := names.map fun k => (⟨k, []⟩ : Req.HeaderSort.KV)
+          let listed := match eh with
+            | none => []
+            | some order => (Req.HeaderSort.listedSorted kvs order).map fun kv => kv.key
+          let showP := match ep with
+            | none => "~"
+            | some l => encodeDotList l
+          let showE := match eh with
+            | none => "~"
+            | some l => encodeDotList l
+          go st (("H=" ++ encodeDotList listed ++ "/E=" ++ showE ++ "/P=" ++ showP) :: acc) rest
+        | _, _, _ => none
+      | _ => none
+  match go Req.OrderScope.fresh [] args with
+  | some out => if out.isEmpty then "none" else " ".intercalate out
+  | none => "bad-op"
+
 def lanes : List (String × (List String → String)) := [
+  ("c16scratch", laneScratch),
+  ("c16cloneorder", laneCloneOrder),
   ("c16values", laneValues),
   ("c16rewrite", laneRewrite),
   ("c16listed", laneListed),
